@@ -19,8 +19,16 @@ def root_of(t):
             t = t[2]
         elif t[0] == "with" and len(t) == 3:
             t = t[1]
-        elif len(t) == 4 and t[0] == "call" and t[2] and any(names.is_(t[1], s) for s in ("Deref::deref", "DerefMut::deref_mut", "AsMut::as_mut", "AsRef::as_ref", "array::as_mut_slice", "Vec::as_mut_slice")):
+        elif len(t) == 4 and t[0] == "call" and t[2] and any(names.is_(t[1], s) for s in ("Deref::deref", "DerefMut::deref_mut", "AsMut::as_mut", "AsRef::as_ref", "array::as_mut_slice", "Vec::as_mut_slice", "array::as_slice", "Vec::as_slice")):
             t = t[2][0]
+        elif t[0] in ("gamma", "phi") and seen < 60:
+            # a buffer that was (or was not) updated on different paths is still the same buffer
+            brs = [v for l_, v in t[2]] if t[0] == "gamma" else list(t[1])
+            roots = {root_of(v) for v in brs if not (isinstance(v, tuple) and len(v) == 2 and v[0] == "cyclic")}
+            roots = {r for r in roots if not flow.term_contains(r, lambda y: isinstance(y, tuple) and len(y) == 2 and y[0] == "cyclic")} or roots
+            if len(roots) == 1:
+                t = next(iter(roots))
+            break
         else:
             break
     return t
